@@ -11,38 +11,54 @@ from twisted.logger import (
     PredicateResult,
 )
 
-HEADLINE = ("TwistedProps.C57.every_observer_gets_every_event_once_in_order / failures_reported_to_others / "
-            "filter_passes_iff_level_ge_most_specific_prefix / history_replays_last_N_in_order")
-RULE = ("pub: 0..6 recording observers with per-call scripts (return / raise / removeObserver+addObserver of any "
-        "observer incl. itself, then return or raise), constructor list + add/remove/emit histories, plus ALL "
-        "configurations of <=3 observers over 6 first-call behaviours; filter: set/clear/query/event histories over "
+HEADLINE = ("TwistedProps.C57.every_observer_gets_every_event_once_in_order / reentrant_publish_once_in_order / "
+            "failures_reported_to_others / filter_passes_iff_level_ge_most_specific_prefix / history_replays_last_N_in_order / "
+            "history_replays_last_N_reentrant")
+RULE = ("pub: 0..6 recording observers with per-call scripts: a command list over removeObserver(x) / addObserver(x) of any "
+        "observer incl. itself / `p` = publish a fresh event through the SAME publisher (re-entrant publish; the nested "
+        "delivery runs the same scripts, to any depth), in any order, then return or raise — also when called by an error "
+        "publisher with a failure report; constructor list + add/remove/emit histories; plus ALL configurations of <=3 "
+        "observers over 12 first-call behaviours (8 for n=3 in the quick tier; thorough adds 4 observers over 6) incl. "
+        "publish, publish-then-remove-self, remove-self-then-publish, publish-and-raise, publish-then-add/remove-next; "
+        "filter: set/clear/query/event histories over "
         "namespaces built from a small segment alphabet (prefix near-misses, empty segments, leading/trailing dots, "
         "non-ASCII), all 5 levels, missing/None level and namespace, predicate lists mixing the level predicate with "
-        "yes/no/maybe/invalid; hist: sizes None,0,1,2,3,5,-1 with observe/replay strings; "
-        "distinct = (op, shape signature: #observers, raise nesting depth, mutation kind | set of step outcomes | size class)")
+        "yes/no/maybe/invalid; hist: sizes None,0,1,2,3,5,-1 with observe/replay strings, the observer replayed to optionally "
+        "logging 0..3 events back into the history observer at its i-th call (re-entrant); "
+        "distinct = (op, shape signature: #observers, raise nesting depth, mutation kind, re-entrant publish nesting depth, "
+        "registration change after a nested publish | set of step outcomes | size class)")
 ASSUMES = [
     "observers raise Exception subclasses (BaseException propagates by design: `except Exception`)",
     "an observer object is registered at most once (addObserver guarantees it; the constructor is given distinct observers)",
-    "observer code re-enters only the publisher under test through addObserver/removeObserver (it holds no reference to "
-    "the private error publishers); it does not mutate the event dict",
+    "observer code re-enters only the publisher under test — through addObserver/removeObserver and by calling it with a "
+    "NEW event (it holds no reference to the private error publishers; it does not publish the event it is handling "
+    "again); it does not mutate the event dict",
+    "re-entrant publishing is well-founded (an observer does not publish on every event it sees for ever): the model "
+    "bounds the nesting by a fuel the driver sets above the number of publish commands in the scripts and reports "
+    "`!overflow` if it is ever hit; every theorem holds for every fuel, and a run that does not hit the bound is "
+    "proved independent of it (run_fuel_irrelevant, overflow_sticky)",
     "events handed to the level predicate carry LogLevel constants (a foreign NamedConstant makes `<` raise TypeError)",
     "an event 'has a namespace' when log_namespace is a non-empty str: the documented behaviour (class docstring, "
     "test_filtering) is that events without a level or namespace are dropped",
-    "replayTo's target observer returns normally and does not feed the same history observer",
+    "replayTo's target observer returns normally (it may log to the same history observer meanwhile)",
 ]
 TRUSTED = ["CPython list iterator / list.remove / collections.deque(maxlen) / str.split / str.join semantics as transcribed"]
 MANIFEST = {
     "text": "Lean theorems (TwistedProps/C57.lean) for every observer behaviour (returning, raising, re-entering "
-            "addObserver/removeObserver), every publisher state and every add/remove/emit history: each registered observer "
-            "receives each event exactly once in registration order, every raise is reported exactly once to every other "
-            "observer of that publisher and never to the raiser, the error recursion is bounded by the observer count; "
-            "logLevelForNamespace equals the level of the longest configured dotted prefix (else the default) for all "
+            "addObserver/removeObserver AND publishing further events through the same publisher while being called, in any "
+            "order, to any depth), every publisher state and every add/remove/emit history: each call of the publisher — by the "
+            "application or re-entrantly by an observer — hands its event to each observer registered when that call started "
+            "exactly once, in registration order, undisturbed by the nested calls; every raise is reported exactly once to "
+            "every other observer of that publisher and never to the raiser, the error recursion is bounded by the observer "
+            "count; logLevelForNamespace equals the level of the longest configured dotted prefix (else the default) for all "
             "configurations and namespaces, FilteringLogObserver passes iff level >= that; a LimitedHistoryLogObserver replays "
-            "exactly the last N events in order for every event stream. Model tied to twisted.logger by differential runs.",
+            "exactly the last N events in order for every event stream, also when the observer replayed to logs to it meanwhile. Model tied to twisted.logger by differential runs.",
     "note": "trusts Lean kernel, the hand-written model of _observer.py/_filter.py/_buffer.py (differentially tied), "
-            "CPython list/deque/str semantics",
-    "technique": "Lean 4 proof (induction over observer lists, fuel-irrelevance for the error recursion, split/join lemmas) "
-                 "+ differential tie + independent oracle",
+            "CPython list/deque/str semantics; re-entrant publishing is modelled with a nesting bound (theorems hold for "
+            "every bound; a run that does not hit it is proved independent of it)",
+    "technique": "Lean 4 proof (induction over observer lists and over the re-entrancy depth against an abstract "
+                 "specification of the nested call, projection of the trace onto the deliveries of one call, fuel-irrelevance "
+                 "for the error recursion, split/join lemmas) + differential tie + independent oracle",
     "design_ref": "DESIGN.md §7.8 C57",
 }
 
@@ -60,8 +76,18 @@ def _ids(l):
     return ",".join(str(i) for i in l)
 
 
+def _norm(a):
+    """an act is [raises, cmds] with cmds over "r<id>" (removeObserver), "a<id>" (addObserver), "p" (publish a
+    fresh event through the publisher under test: re-entrant publish); the older form [raises, removes, adds]
+    (removes first, then adds) is still accepted"""
+    if len(a) == 3:
+        return [bool(a[0]), [f"r{r}" for r in a[1]] + [f"a{x}" for x in a[2]]]
+    return [bool(a[0]), list(a[1])]
+
+
 def _act(a):
-    return ("x" if a[0] else "o") + ":" + ".".join(map(str, a[1])) + ":" + ".".join(map(str, a[2]))
+    a = _norm(a)
+    return ("x" if a[0] else "o") + ":" + ".".join(a[1])
 
 
 def _ns(t):
@@ -85,7 +111,8 @@ def model_line(c):
             else:
                 steps.append(f"e:{'~' if s[1] is None else s[1]}:{'~' if s[2] is None else _ns(s[2])}")
         return f"filter {c['default']} {','.join(c['preds']) or '-'} {';'.join(steps)}"
-    return f"hist {'N' if c['size'] is None else c['size']} {c['steps'] or '-'}"
+    feed = c.get("feed") or []
+    return f"hist {'N' if c['size'] is None else c['size']} {c['steps'] or '-'}" + (f" {_ids(feed)}" if feed else "")
 
 
 # ------------------------------------------------------------------------------------------
@@ -100,12 +127,20 @@ class Boom(Exception):
 class World:
     def __init__(self, scripts):
         self.trace = []
-        self.obs = [Rec(i, sc, self) for i, sc in enumerate(scripts)]
+        self.obs = [Rec(i, [_norm(a) for a in sc], self) for i, sc in enumerate(scripts)]
         self.pub = None
+        self.nsub = 0
+        self.lt = False
+
+    def event(self, key, k):
+        # with `lt` the events carry a "log_trace" list: LogPublisher.__call__ then takes its tracing branch
+        return {key: k, "log_trace": []} if self.lt else {key: k}
 
     def token(self, event):
         if "n" in event:
             return str(event["n"])
+        if "s" in event:
+            return f"s{event['s']}"
         f = event.get("log_failure")
         b = event.get("observer")
         if f is not None and isinstance(b, Rec) and isinstance(f.value, Boom) and f.value.obs == b.i:
@@ -123,12 +158,21 @@ class Rec:
         w = self.world
         tok = w.token(event)
         w.trace.append(f"{self.i}>{tok}")
-        raises, removes, adds = self.script[self.n] if self.n < len(self.script) else OK
+        raises, cmds = self.script[self.n] if self.n < len(self.script) else (False, [])
         self.n += 1
-        for r in removes:
-            w.pub.removeObserver(w.obs[r])
-        for a in adds:
-            w.pub.addObserver(w.obs[a])
+        for cmd in cmds:
+            if cmd == "p":
+                # re-entrant publish of a fresh event through the publisher that is calling us; the bracket
+                # entries are bookkeeping for the oracle only (compare() drops them)
+                j = w.nsub
+                w.nsub += 1
+                w.trace.append(f"[s{j}@{_ids(_registered(w))}")
+                w.pub(w.event("s", j))
+                w.trace.append(f"]s{j}")
+            elif cmd[0] == "r":
+                w.pub.removeObserver(w.obs[int(cmd[1:])])
+            else:
+                w.pub.addObserver(w.obs[int(cmd[1:])])
         if raises:
             raise Boom(self.i, tok)
 
@@ -139,18 +183,26 @@ def _registered(w):
 
 def run_pub(c):
     w = World(c["behs"])
+    w.lt = bool(c.get("lt"))
     w.pub = LogPublisher(*[w.obs[i] for i in c["init"]])
     k = 0
     for op in c["ops"]:
         if op == "e":
             w.trace.append("@" + _ids(_registered(w)))
-            w.pub({"n": k})
+            w.pub(w.event("n", k))
             k += 1
         elif op[0] == "a":
             w.pub.addObserver(w.obs[int(op[1:])])
         else:
             w.pub.removeObserver(w.obs[int(op[1:])])
     return ";".join(w.trace) + "|main=" + _ids(_registered(w))
+
+
+def compare(c, impl_out, model_out):
+    if c["op"] == "pub" and "|main=" in impl_out:
+        body, main = impl_out.rsplit("|main=", 1)
+        impl_out = ";".join(e for e in body.split(";") if e[:1] not in ("[", "]")) + "|main=" + main
+    return impl_out == model_out
 
 
 class ConstPredicate:
@@ -183,6 +235,8 @@ def run_filter(c):
             out.append(str(LV.index(pred.logLevelForNamespace(s[1]))))
         else:
             ev = {"log_format": "x"}
+            if c.get("lt"):
+                ev["log_trace"] = []
             if s[1] is not None:
                 ev["log_level"] = LV[s[1]]
             elif style:
@@ -212,15 +266,28 @@ def run_hist(c):
         h = LimitedHistoryLogObserver(c["size"])
     except ValueError:
         return "!raised ValueError"
-    out, k = [], 0
+    feed = c.get("feed") or []
+    out, k = [], [0]
     for ch in c["steps"]:
         if ch == "e":
-            h({"n": k})
-            k += 1
+            h({"n": k[0]})
+            k[0] += 1
         else:
             got = []
-            h.replayTo(got.append)
-            out.append("[" + _ids(e["n"] for e in got) + "]")
+
+            def target(ev):
+                # the observer replayed to logs to the history observer itself (re-entrant): feed[i] events at its i-th call
+                got.append(ev)
+                i = len(got) - 1
+                for _ in range(feed[i] if i < len(feed) else 0):
+                    h({"n": k[0]})
+                    k[0] += 1
+
+            try:
+                h.replayTo(target)
+                out.append("[" + _ids(e["n"] for e in got) + "]")
+            except Exception as e:
+                out.append("[" + _ids(e["n"] for e in got) + "]!" + type(e).__name__)
     return ";".join(out) or "-"
 
 
@@ -231,70 +298,124 @@ def run_impl(c):
 # ------------------------------------------------------------------------------------------
 # the property, evaluated on what the implementation did (independent of the Lean model)
 
+class _Publish:
+    """one call of the publisher under test: by the application (`@`) or by an observer (`[s<j>@ … ]s<j>`)"""
+
+    def __init__(self, tok, R, start, parent):
+        self.tok, self.R, self.start, self.end, self.parent = tok, R, start, None, parent
+        self.removed, self.removed_by_other, self.added = set(), set(), set()
+
+
+def _root(tok):
+    while tok.startswith("r") and "(" in tok:
+        tok = tok[tok.index("(") + 1:-1]
+    return tok
+
+
 def _oracle_pub(c, out):
+    """Judged from the statement: EVERY call of the publisher — by the application or by an observer that is itself
+    being called (re-entrant) — delivers its event exactly once to each observer registered when the call started,
+    in registration order, during that call; every raise is reported to the other observers, never to the raiser."""
     if out.startswith("!raised"):
         return {"key": "publisher-raised", "detail": f"{model_line(c)}: {out}"}
     body, _ = out.rsplit("|main=", 1)
-    scripts = c["behs"]
+    scripts = [[_norm(a) for a in sc] for sc in c["behs"]]
     ncalls = [0] * len(scripts)
-    segs = []
-    for ent in body.split(";") if body else []:
+    pubs, dels, stack, ntop = {}, [], [], 0
+    entries = body.split(";") if body else []
+    for idx, ent in enumerate(entries):
         if ent.startswith("@"):
-            segs.append(([int(x) for x in ent[1:].split(",") if x], []))
+            if len(stack) > 1:
+                return {"key": "markers", "detail": out}
+            if stack:
+                stack[0].end = idx
+            P = _Publish(str(ntop), [int(x) for x in ent[1:].split(",") if x], idx, None)
+            ntop += 1
+            stack = [P]
+            pubs[P.tok] = P
+        elif ent.startswith("["):
+            tok, ids = ent[1:].split("@", 1)
+            if not stack or tok in pubs:
+                return {"key": "markers", "detail": out}
+            P = _Publish(tok, [int(x) for x in ids.split(",") if x], idx, stack[-1])
+            stack.append(P)
+            pubs[tok] = P
+        elif ent.startswith("]"):
+            if len(stack) < 2 or stack[-1].tok != ent[1:]:
+                return {"key": "markers", "detail": out}
+            stack.pop().end = idx
         else:
             o, tok = ent.split(">", 1)
             o = int(o)
-            act = scripts[o][ncalls[o]] if ncalls[o] < len(scripts[o]) else OK
+            act = scripts[o][ncalls[o]] if ncalls[o] < len(scripts[o]) else [False, []]
             ncalls[o] += 1
-            if not segs:
+            if not stack:
                 return {"key": "delivery-without-emit", "detail": out}
-            segs[-1][1].append((o, tok, act))
-    if len(segs) != sum(1 for op in c["ops"] if op == "e"):
+            dels.append((o, tok, act, idx))
+            for P in stack:
+                for cmd in act[1]:
+                    if cmd[0] == "r":
+                        P.removed.add(int(cmd[1:]))
+                        if int(cmd[1:]) != o:
+                            P.removed_by_other.add(int(cmd[1:]))
+                    elif cmd[0] == "a":
+                        P.added.add(int(cmd[1:]))
+    if len(stack) > 1:
+        return {"key": "markers", "detail": out}
+    for P in pubs.values():
+        if P.end is None:
+            P.end = len(entries)
+    if ntop != sum(1 for op in c["ops"] if op == "e"):
         return {"key": "segments", "detail": out}
     where = model_line(c)
-    for k, (R, dels) in enumerate(segs):
-        tok = str(k)
-        removed_by_other, removed, added = set(), set(), set()
-        for o, t, act in dels:
-            removed |= set(act[1])
-            removed_by_other |= {r for r in act[1] if r != o}
-            added |= set(act[2])
-        # (1) the event: exactly once to each registered observer, in registration order
-        got = [o for o, t, _ in dels if t == tok]
-        required = [o for o in R if o not in removed_by_other]
+    by_tok = {}
+    for o, t, act, idx in dels:
+        by_tok.setdefault(t, []).append((o, idx))
+    # (1) each published event: exactly once to each registered observer, in registration order, during that call
+    for tok, P in pubs.items():
+        R = P.R
+        kind = "event" if P.parent is None else "re-entrantly published event"
+        got = [o for o, _ in by_tok.get(tok, [])]
+        if any(not (P.start < idx < P.end) for _, idx in by_tok.get(tok, [])):
+            return {"key": "delivered-outside-publish", "detail": f"{where}: {kind} {tok} delivered to {got}, registered {R}"}
+        required = [o for o in R if o not in P.removed_by_other]
         if len(set(got)) != len(got):
-            return {"key": "delivered-twice", "detail": f"{where}: event {k} delivered to {got}, registered {R}"}
+            return {"key": "delivered-twice", "detail": f"{where}: {kind} {tok} delivered to {got}, registered {R}"}
         if [o for o in got if o in required] != required:
-            key = "skipped-after-removal" if removed else "not-delivered-once-in-order"
-            return {"key": key, "detail": f"{where}: event {k} delivered to {got}, registered {R} "
+            key = "skipped-after-removal" if P.removed else "not-delivered-once-in-order"
+            return {"key": key, "detail": f"{where}: {kind} {tok} delivered to {got}, registered {R} "
                                           f"(must reach {required} in this order)"}
-        if any(o not in R and o not in added for o in got):
-            return {"key": "delivered-to-unregistered", "detail": f"{where}: event {k} delivered to {got}, registered {R}"}
-        # (2) failures are reported to the other observers, never to the raiser; (3) nothing else is reported
-        expected_reports = set()
-        for b, t, act in dels:
-            if not act[0]:
-                continue
-            rt = f"r{b}({t})"
-            expected_reports.add(rt)
-            rec = [o for o, t2, _ in dels if t2 == rt]
-            if b in rec:
-                return {"key": "reported-to-raiser", "detail": f"{where}: {rt} delivered to {rec}"}
-            if len(set(rec)) != len(rec):
-                return {"key": "reported-twice", "detail": f"{where}: {rt} delivered to {rec}"}
-            if t == tok:
-                must = [o for o in R if o != b and o not in removed]
-                if [o for o in rec if o in must] != must or any(o not in R and o not in added for o in rec):
-                    return {"key": "failure-not-reported", "detail": f"{where}: {rt} delivered to {rec}, "
-                                                                     f"must reach {must} (registered {R})"}
-            else:
-                # raised inside an error publisher: its observers are exactly the recipients of t
-                must = [o for o, t2, _ in dels if t2 == t and o != b]
-                if rec != must:
-                    return {"key": "failure-not-reported", "detail": f"{where}: {rt} delivered to {rec}, must be {must}"}
-        for o, t, _ in dels:
-            if t != tok and t not in expected_reports:
-                return {"key": "spurious-event", "detail": f"{where}: observer {o} received {t}"}
+        if any(o not in R and o not in P.added for o in got):
+            return {"key": "delivered-to-unregistered", "detail": f"{where}: {kind} {tok} delivered to {got}, registered {R}"}
+    # (2) failures are reported to the other observers, never to the raiser; (3) nothing else is delivered
+    expected_reports = set()
+    for b, t, act, idx in dels:
+        if not act[0]:
+            continue
+        rt = f"r{b}({t})"
+        expected_reports.add(rt)
+        rec = [o for o, _ in by_tok.get(rt, [])]
+        P = pubs.get(_root(t))
+        if b in rec:
+            return {"key": "reported-to-raiser", "detail": f"{where}: {rt} delivered to {rec}"}
+        if len(set(rec)) != len(rec):
+            return {"key": "reported-twice", "detail": f"{where}: {rt} delivered to {rec}"}
+        if P is not None and any(not (P.start < i < P.end) for _, i in by_tok.get(rt, [])):
+            return {"key": "reported-outside-publish", "detail": f"{where}: {rt} delivered to {rec}"}
+        if t in pubs:
+            P = pubs[t]
+            must = [o for o in P.R if o != b and o not in P.removed]
+            if [o for o in rec if o in must] != must or any(o not in P.R and o not in P.added for o in rec):
+                return {"key": "failure-not-reported", "detail": f"{where}: {rt} delivered to {rec}, "
+                                                                 f"must reach {must} (registered {P.R})"}
+        else:
+            # raised inside an error publisher: its observers are exactly the recipients of t
+            must = [o for o, _ in by_tok.get(t, []) if o != b]
+            if rec != must:
+                return {"key": "failure-not-reported", "detail": f"{where}: {rt} delivered to {rec}, must be {must}"}
+    for o, t, _, _ in dels:
+        if t not in pubs and t not in expected_reports:
+            return {"key": "spurious-event", "detail": f"{where}: observer {o} received {t}"}
     return None
 
 
@@ -350,21 +471,29 @@ def _oracle_filter(c, out):
 
 
 def _oracle_hist(c, out):
+    """replayTo hands over exactly the last N events observed before the call, in order — also when the observer
+    replayed to logs to the history observer meanwhile; what it logs is history for the next replay"""
     if c["size"] is not None and c["size"] < 0:
         return None if out == "!raised ValueError" else {"key": "hist-negative-size", "detail": out}
     if out.startswith("!raised"):
         return {"key": "hist-raised", "detail": f"{model_line(c)}: {out}"}
-    exp, k = [], 0
+    feed = c.get("feed") or []
+    exp, k, allev = [], 0, []
     for ch in c["steps"]:
         if ch == "e":
+            allev.append(k)
             k += 1
         else:
-            allev = list(range(k))
-            last = allev if c["size"] is None else (allev[-c["size"]:] if c["size"] > 0 else [])
+            last = list(allev) if c["size"] is None else (allev[-c["size"]:] if c["size"] > 0 else [])
             exp.append("[" + _ids(last) + "]")
+            for i in range(len(last)):
+                for _ in range(feed[i] if i < len(feed) else 0):
+                    allev.append(k)
+                    k += 1
     exp = ";".join(exp) or "-"
     if out != exp:
-        return {"key": "history-replay", "detail": f"{model_line(c)}: replayed {out} expected {exp}"}
+        key = "history-replay-reentrant" if "!" in out else "history-replay"
+        return {"key": key, "detail": f"{model_line(c)}: replayed {out} expected {exp}"}
     return None
 
 
@@ -386,6 +515,28 @@ def corpus():
         {"op": "pub", "init": [2, 0], "behs": [[o], [x], [x, o]], "ops": ["e", "a1", "e", "r2", "e", "a1"]},
         {"op": "pub", "init": [0, 1], "behs": [[[True, [1], [2]]], [x], [x, x]], "ops": ["e", "e"]},
         {"op": "pub", "init": [], "behs": [], "ops": ["e"]},
+        # re-entrant publishing: an observer publishes another event through the same publisher while it is called.
+        # (a) observers first, chatty (publishes), oneShot (removes itself), last — the one-shot observer unregisters
+        #     AFTER the nested publish has returned, still during the outer delivery: `last` must get the outer event
+        {"op": "pub", "init": [0, 1, 2, 3], "behs": [[], [[False, []], [False, ["p"]]], [[False, []], [False, []], [False, ["r2"]]], []],
+         "ops": ["e", "e", "e"]},
+        # (b) the same observer publishes and then removes itself / adds another / removes an earlier one
+        {"op": "pub", "init": [0, 1], "behs": [[[False, ["p", "r0"]]], []], "ops": ["e", "e"]},
+        {"op": "pub", "init": [0, 1], "behs": [[[False, ["p", "a2"]]], [], []], "ops": ["e", "e"]},
+        {"op": "pub", "init": [0, 1, 2], "behs": [[], [[False, ["p", "r0"]]], []], "ops": ["e", "e"]},
+        {"op": "pub", "init": [0, 1, 2], "behs": [[[False, ["r0", "p"]]], [], []], "ops": ["e", "e"]},
+        # (c) removal during the nested delivery itself; nested publish two levels deep, then removal at each level
+        {"op": "pub", "init": [0, 1, 2], "behs": [[[False, ["p"]]], [[False, []], [False, ["r1"]]], []], "ops": ["e", "e"]},
+        {"op": "pub", "init": [0, 1, 2], "behs": [[[False, ["p", "r0"]], [False, ["p", "a0"]]], [[False, ["r1"]]], []], "ops": ["e", "e"]},
+        # (d) raising after a nested publish; publishing from a failure report (observer called by an error publisher)
+        #     and unregistering afterwards; every observer publishes and raises
+        {"op": "pub", "init": [0, 1, 2], "behs": [[[True, ["p", "r0"]]], [], [[True, []]]], "ops": ["e", "e"]},
+        {"op": "pub", "init": [0, 1, 2], "behs": [[[True, []]], [[False, []], [False, ["p", "r1"]]], []], "ops": ["e", "e"]},
+        {"op": "pub", "init": [0, 1, 2], "behs": [[[True, ["p"]]], [[True, ["p"]]], [[True, ["p", "r2"]]]], "ops": ["e"]},
+        # events carrying a log_trace list (the tracing branch of __call__), with a raise and a nested publish
+        {"op": "pub", "init": [0, 1, 2], "behs": [[[True, ["p", "r0"]]], [], [[True, []]]], "ops": ["e", "e"], "lt": 1},
+        # (e) two nested publishes by one observer with a registration change in between and after
+        {"op": "pub", "init": [0, 1, 2], "behs": [[[False, ["p", "r1", "p", "a1", "r0"]]], [], []], "ops": ["e", "e"]},
         {"op": "filter", "default": 1, "preds": ["L"], "steps": [["s", "twext.web2", 0], ["s", "twext.web2.dav", 2],
             ["e", 0, "twext.web2"], ["e", 0, "twext.web2.dav"], ["e", 3, "twext.web2.dav.x"], ["e", 1, "twext.web22"],
             ["e", 4, ""], ["e", None, "twext"], ["e", 4, None], ["q", ""], ["q", "twext.web2.davx"], ["c"], ["q", "twext.web2"]]},
@@ -397,24 +548,41 @@ def corpus():
         {"op": "hist", "size": 0, "steps": "eer"},
         {"op": "hist", "size": None, "steps": "reerer"},
         {"op": "hist", "size": -1, "steps": "e"},
+        # the observer replayed to logs to the history observer while it is being replayed to (re-entrant)
+        {"op": "hist", "size": None, "steps": "eeer", "feed": [1]},
+        {"op": "hist", "size": 3, "steps": "eeeerr", "feed": [0, 2, 1]},
+        {"op": "hist", "size": 5, "steps": "eerer", "feed": [1, 1, 1, 1, 1, 1]},
+        {"op": "hist", "size": 1, "steps": "err", "feed": [3]},
+        {"op": "hist", "size": 0, "steps": "er", "feed": [1]},
+        # minimised witness of the defect fixed in LimitedHistoryLogObserver.replayTo (deque mutated during iteration:
+        # RuntimeError even though the one buffered event had been handed over)
+        {"op": "hist", "size": 3, "steps": "er", "feed": [1]},
     ]
 
 
-FIRST = [[False, [], []], [True, [], []], "rs", "rsx", "an", "rn"]
+# first-call behaviours for the exhaustive small configurations; S = the observer itself, N = the next observer
+FIRST = [
+    [False, []], [True, []], [False, ["rS"]], [True, ["rS"]], [False, ["aN"]], [False, ["rN"]],
+    [False, ["p"]], [False, ["p", "rS"]], [False, ["rS", "p"]], [True, ["p"]], [False, ["p", "rN"]], [False, ["p", "aN"]],
+]
+FIRST_CORE = [0, 1, 2, 5, 6, 7, 8, 11]
 
 
-def _small_exhaustive():
-    """all configurations of 1..3 observers over six first-call behaviours (return, raise, remove self,
-    remove self and raise, add the next observer, remove the next observer), two emits"""
-    for n in (1, 2, 3):
-        for combo in itertools.product(range(len(FIRST)), repeat=n):
+def _small_exhaustive(tier="quick"):
+    """all configurations of 1..3 observers over first-call behaviours (return, raise, remove self, remove self and
+    raise, add / remove the next observer, publish re-entrantly, publish then remove self, remove self then publish,
+    publish and raise, publish then remove / add the next observer), two emits.  n = 3 in the quick tier: the 8 core
+    behaviours; thorough: all 12, and 4 observers over 6."""
+    plans = [(1, range(len(FIRST))), (2, range(len(FIRST))), (3, FIRST_CORE if tier == "quick" else range(len(FIRST)))]
+    if tier != "quick":
+        plans.append((4, [0, 1, 2, 6, 7, 8]))
+    for n, alphabet in plans:
+        for combo in itertools.product(alphabet, repeat=n):
             behs = []
             for i, b in enumerate(combo):
-                f = FIRST[b]
                 nxt = (i + 1) % n
-                act = {"rs": [False, [i], []], "rsx": [True, [i], []], "an": [False, [], [nxt]],
-                       "rn": [False, [nxt], []]}.get(f, f) if isinstance(f, str) else f
-                behs.append([act])
+                raises, cmds = FIRST[b]
+                behs.append([[raises, [cm.replace("S", str(i)).replace("N", str(nxt)) for cm in cmds]]])
             yield {"op": "pub", "init": list(range(n)), "behs": behs, "ops": ["e", "e"]}
 
 
@@ -428,18 +596,43 @@ def _namespace(rng):
 def _gen_pub(rng):
     n = rng.choice([0, 1, 2, 2, 3, 3, 4, 5, 6])
     p_raise = rng.choice([0.0, 0.2, 0.5, 0.9, 1.0])
-    mode = rng.choice(["none"] * 5 + ["self"] * 2 + ["any"] * 3)
+    mode = rng.choice(["none"] * 4 + ["self"] * 2 + ["any"] * 3 + ["pub"] * 2 + ["pubself"] * 3 + ["pubany"] * 4)
+    budget = [rng.choice([1, 2, 3, 5])]      # re-entrant publishes in the whole case (each one fans out to every observer)
+
+    def pub_cmd():
+        if budget[0] > 0:
+            budget[0] -= 1
+            return ["p"]
+        return []
+
     behs = []
     for i in range(n):
         sc = []
         for _ in range(rng.choice([0, 1, 1, 2, 3, 4, 6] if n <= 4 else [0, 1, 1, 2, 3])):
-            rem, add = [], []
+            cmds = []
             if mode == "self" and rng.random() < 0.4:
-                rem = [i]
+                cmds = [f"r{i}"]
             elif mode == "any" and rng.random() < 0.5:
-                rem = [rng.randrange(n) for _ in range(rng.choice([0, 1, 1, 2]))]
-                add = [rng.randrange(n) for _ in range(rng.choice([0, 0, 1, 2]))]
-            sc.append([rng.random() < p_raise, rem, add])
+                cmds = [f"r{rng.randrange(n)}" for _ in range(rng.choice([0, 1, 1, 2]))]
+                cmds += [f"a{rng.randrange(n)}" for _ in range(rng.choice([0, 0, 1, 2]))]
+            elif mode == "pub" and rng.random() < 0.4:
+                cmds = pub_cmd()
+            elif mode == "pubself":
+                # publishers and one-shot observers: publish, unregister self, both in either order, or nothing
+                r = rng.random()
+                if r < 0.25:
+                    cmds = pub_cmd()
+                elif r < 0.45:
+                    cmds = [f"r{i}"]
+                elif r < 0.6:
+                    cmds = pub_cmd() + [f"r{i}"]
+                elif r < 0.7:
+                    cmds = [f"r{i}"] + pub_cmd()
+            elif mode == "pubany" and rng.random() < 0.6:
+                for _ in range(rng.choice([1, 1, 2, 3, 4])):
+                    r = rng.random()
+                    cmds += pub_cmd() if r < 0.4 else [f"r{rng.randrange(n)}"] if r < 0.75 else [f"a{rng.randrange(n)}"]
+            sc.append([rng.random() < p_raise, cmds])
         behs.append(sc)
     init = list(range(n))
     rng.shuffle(init)
@@ -453,7 +646,7 @@ def _gen_pub(rng):
             ops.append(f"a{rng.randrange(n)}")
         else:
             ops.append(f"r{rng.randrange(n)}")
-    return {"op": "pub", "init": init, "behs": behs, "ops": ops}
+    return {"op": "pub", "init": init, "behs": behs, "ops": ops, "lt": int(rng.random() < 0.25)}
 
 
 def _gen_filter(rng):
@@ -484,17 +677,21 @@ def _gen_filter(rng):
             steps.append(["e", rng.choice([0, 1, 2, 3, 4, 0, 2, 4, None]), rng.choice([ns, ns, ns, near(ns), "", None])])
     preds = rng.choice([["L"]] * 6 + [[], ["m", "L"], ["L", "n"], ["L", "y"], ["y", "L"], ["n", "L"], ["L", "i"], ["i", "L"],
                                        ["m", "m", "L", "m"]])
-    return {"op": "filter", "default": rng.randrange(5), "preds": preds, "steps": steps, "none_style": rng.randrange(2)}
+    return {"op": "filter", "default": rng.randrange(5), "preds": preds, "steps": steps, "none_style": rng.randrange(2),
+            "lt": int(rng.random() < 0.25)}
 
 
 def _gen_hist(rng):
     size = rng.choice([None, 0, 1, 2, 3, 5, -1, 2, 3])
     steps = "".join(rng.choice("eeer") for _ in range(rng.choice([0, 1, 3, 6, 9, 14]))) + rng.choice(["", "r"])
-    return {"op": "hist", "size": size, "steps": steps}
+    c = {"op": "hist", "size": size, "steps": steps}
+    if rng.random() < 0.4:
+        c["feed"] = [rng.choice([0, 0, 1, 1, 2, 3]) for _ in range(rng.choice([1, 1, 2, 3, 6]))]
+    return c
 
 
 def generate(rng, tier):
-    yield from _small_exhaustive()
+    yield from _small_exhaustive(tier)
     n = 2200 if tier == "quick" else 60000
     for _ in range(n):
         r = rng.random()
@@ -513,7 +710,8 @@ def search(rng, tier, disagreeing):
             continue
         n = len(c["behs"])
         for i in range(n):
-            for act in ([False, [i], []], [True, [i], []], [True, [], []], [False, [], []]):
+            for act in ([False, [f"r{i}"]], [True, [f"r{i}"]], [True, []], [False, []], [False, ["p"]],
+                        [False, ["p", f"r{i}"]], [False, [f"r{i}", "p"]], [True, ["p"]]):
                 d = dict(c)
                 d["behs"] = [list(sc) for sc in c["behs"]]
                 d["behs"][i] = [act] + d["behs"][i][1:]
@@ -530,8 +728,8 @@ def shrink(c):
         for i, sc in enumerate(behs):
             for j in range(len(sc)):
                 yield dict(c, behs=behs[:i] + [sc[:j] + sc[j + 1:]] + behs[i + 1:])
-                a = sc[j]
-                for simpler in ([a[0], [], a[2]], [a[0], a[1], []], [False, a[1], a[2]], [a[0], a[1][1:], a[2]]):
+                a = _norm(sc[j])
+                for simpler in [[False, a[1]]] + [[a[0], a[1][:m] + a[1][m + 1:]] for m in range(len(a[1]))]:
                     if simpler != a:
                         yield dict(c, behs=behs[:i] + [sc[:j] + [simpler] + sc[j + 1:]] + behs[i + 1:])
         for i in range(len(c["init"])):
@@ -546,19 +744,31 @@ def shrink(c):
         s = c["steps"]
         for i in range(len(s)):
             yield dict(c, steps=s[:i] + s[i + 1:])
+        f = c.get("feed") or []
+        for i in range(len(f)):
+            yield dict(c, feed=f[:i] + f[i + 1:])
+            if f[i] > 0:
+                yield dict(c, feed=f[:i] + [f[i] - 1] + f[i + 1:])
 
 
 def tag(c, out):
     if c["op"] == "pub":
-        depth = 0
+        depth = nest = lvl = 0
         for ent in out.split("|")[0].split(";"):
             depth = max(depth, ent.count("("))
-        acts = [a for sc in c["behs"] for a in sc]
-        mut = ("self" if any(a[1] for a in acts) else "") + ("add" if any(a[2] for a in acts) else "")
-        return f"pub:n{len(c['behs'])}:depth{min(depth, 5)}:{mut or 'plain'}:ops{''.join(sorted(set(o[0] for o in c['ops'])))}"
+            lvl += 1 if ent[:1] == "[" else -1 if ent[:1] == "]" else 0
+            nest = max(nest, lvl)
+        cmds = [cm for sc in c["behs"] for a in sc for cm in _norm(a)[1]]
+        mut = ("rem" if any(cm[0] == "r" for cm in cmds) else "") + ("add" if any(cm[0] == "a" for cm in cmds) else "")
+        # a registration change that follows a re-entrant publish inside one observer call / anywhere in the case
+        after = any("p" in _norm(a)[1] and any(cm != "p" for cm in _norm(a)[1][_norm(a)[1].index("p"):])
+                    for sc in c["behs"] for a in sc)
+        return (f"pub{'+lt' if c.get('lt') else ''}:n{len(c['behs'])}:depth{min(depth, 5)}:{mut or 'plain'}:nest{min(nest, 4)}"
+                f"{'+after' if after else ''}:ops{''.join(sorted(set(o[0] for o in c['ops'])))}")
     if c["op"] == "filter":
         return "filter:" + ",".join(sorted(set(out.split(";"))))[:80] + ":" + "".join(c["preds"])
     size = c["size"]
     ne = c["steps"].count("e")
     cls = "N" if size is None else "neg" if size < 0 else "0" if size == 0 else ("lt" if ne < size else "eq" if ne == size else "gt")
-    return f"hist:{cls}:{'r' if 'r' in c['steps'] else 'nor'}"
+    fed = "feed" if any(c.get("feed") or []) and "r" in c["steps"] else "nofeed"
+    return f"hist:{cls}:{'r' if 'r' in c['steps'] else 'nor'}:{fed}:{'!' if '!' in out else 'ok'}"
